@@ -372,6 +372,10 @@ func (e *Enc) unop(x *ssa.UnOp) {
 		v = e.defineValue(x.Name(), v)
 		e.vals[x] = v
 		e.assume(rangeFact(v, x.Type()), "loaded value is well typed")
+		if g, ok := x.X.(*ssa.Global); ok && x.Type().String() == "error" && (strings.HasPrefix(g.Name(), "Err") || g.Name() == "EOF") {
+			e.assume(not(eq(v.(Sc).T, intLit(0))), "error sentinel "+g.Name()+" is non-nil")
+			e.assumption("package-level error sentinels (Err*, EOF) are non-nil and never reassigned")
+		}
 	case token.ARROW:
 		e.note("channel receive: value nondeterministic")
 		e.setVal(x, e.freshValue(x.Name(), x.Type()))
